@@ -3,11 +3,13 @@
    numpy.format_float_positional(x, precision=dp, unique=True, fractional=True, trim='-'), the
    call made by DefaultFormatter.number; the model is compared with the real formatter on
    thousands of structured values per run (text-exact).
-   The line-level clauses (one terminator, words then at most one comment) are stated in
-   props/C09.v on the text model of the formatter (model/Formatter.v) and checked on raw bytes by
-   the harness's independent block grammar. *)
-From Coq Require Import ZArith QArith Qabs Bool List.
-From GS Require Import model.Num model.FloatFmt proofs.FloatFmtProofs.
+   The assembly of a block -- instruction, then label+number words separated by single spaces --
+   is model/Block.v (DefaultFormatter.command / parameters), compared byte for byte with the real
+   formatter; C08_block reads every such block back.  The comment and terminator clauses (one
+   terminator, words then at most one comment) are stated in props/C09.v on model/Formatter.v and
+   checked on raw bytes by the harness's independent block grammar. *)
+From Coq Require Import ZArith QArith Qabs Bool List Lia.
+From GS Require Import model.Num model.FloatFmt model.Block proofs.FloatFmtProofs proofs.BlockProofs.
 Import ListNotations.
 
 (* For EVERY finite non-zero value of any binary format (sign, mantissa > 0, exponent: subnormals,
@@ -31,6 +33,37 @@ Theorem C08_plain_decimal : forall neg r, (0 <= d_q r)%Z ->
     ip <> [] /\ Forall digit_char ip /\ Forall digit_char fp /\ (Z.of_nat (length fp) <= Z.max (d_k r) 0)%Z.
 Proof. exact render_shape. Qed.
 Print Assumptions C08_plain_decimal.
+
+(* every number the formatter writes for a finite value is a plain signed decimal: optional '-',
+   digits, optionally '.' and digits *)
+Theorem C08_number_is_plain : forall eb mb bits dp t, (0 <= bits)%Z -> number eb mb bits dp = Some t -> plain_text t.
+Proof. exact number_plain. Qed.
+
+(* the whole block.  For every instruction token and every list of words (letters-only labels, any
+   finite binary16/32/64 values): if the formatter writes the block at all (no value is rejected),
+   an independent reader -- split at spaces, then split each word where its letters end -- gets back
+   exactly the instruction followed by the words, each word splits exactly into its label and the
+   number text, and each number text is a plain decimal (its value is the one of C08_number).  So
+   the block consists of address words only: no empty token (no double space), nothing glued. *)
+Theorem C08_block : forall dp cmd ws txt, cmd <> [] -> ~ In SPC cmd -> Forall bword_ok ws ->
+  command_text dp cmd ws = Some txt ->
+  exists nums, Forall2 (fun w n => word_number dp w = Some n /\ plain_text n) ws nums /\
+    split_sp txt = cmd :: map (fun wn => w_label (fst wn) ++ snd wn) (combine ws nums) /\
+    Forall (fun wn => span_letters (w_label (fst wn) ++ snd wn) = (w_label (fst wn), snd wn)) (combine ws nums).
+Proof. exact block_readback. Qed.
+Print Assumptions C08_block.
+
+(* "G1 X1.5 Y-0.25 F1200" at 3 places; a NaN word: nothing is written *)
+Example C08_block_nonvacuous :
+  let ws := [mkbword [88%N] 11 52 0x3FF8000000000000; mkbword [89%N] 11 52 0xBFD0000000000000;
+             mkbword [70%N] 11 52 0x4092C00000000000] in
+  Forall bword_ok ws /\
+  command_text 3 [71; 49]%N ws = Some [71;49;32;88;49;46;53;32;89;45;48;46;50;53;32;70;49;50;48;48]%N /\
+  command_text 3 [71; 49]%N [mkbword [88%N] 11 52 0x7FF8000000000000] = None.
+Proof.
+  split; [|vm_compute; split; reflexivity].
+  repeat constructor; try discriminate; unfold w_bits; lia.
+Qed.
 
 (* +-0 print as "0"; infinities and NaN (all-ones exponent field) are rejected *)
 Theorem C08_zero : forall dp, number_text FZero dp = Some [48%N].
